@@ -223,9 +223,12 @@ def relation(pts, nrm, surf, direction, max_vox, deg):
     ok = inrange & fwd & cone
     ii, jj = np.where(ok)
     adm = sorted((float(dist[i, j]), int(S[i]), int(Tt[j])) for i, j in zip(ii, jj))
-    for k in range(1, len(adm)):
-        if adm[k][0] - adm[k - 1][0] < REL * adm[k][0]:
-            return None
+    # strict distance order wherever it matters: two admissible pairs that share a source or a target
+    for key in (1, 2):
+        by = sorted(adm, key=lambda a: (a[key], a[0]))
+        for k in range(1, len(by)):
+            if by[k][key] == by[k - 1][key] and by[k][0] - by[k - 1][0] < REL * by[k][0]:
+                return None
     rows = np.bincount(ii, minlength=len(S)) if len(ii) else np.zeros(len(S), dtype=int)
     return {"adm": [(s, t, d) for d, s, t in adm], "maxrow": int(rows.max()) if len(rows) else 0}
 
@@ -260,31 +263,48 @@ def measurement_event(kind, direction, res, n, pts, nrm, rank, max_vox, deg, vox
     return ev
 
 
-def run_sheets(ctx, cases, corrupt=None):
+def prepare_sheet(ctx, case):
+    """Build the sheet and its brute-force relations; None (and a counted discard) when the case is outside the
+    property's quantifier (near tie, 25 or more candidates)."""
+    b = build_sheet(case)
+    pts, nrm, surf = b["pts"], b["nrm"], b["surf"]
+    deg, d0, max_vox = case["deg"], case["dir"], b["max_vox"]
+    rel = {d: relation(pts, nrm, surf, d, max_vox, deg) for d in ("1to2", "2to1")}
+    if rel["1to2"] is None or rel["2to1"] is None:
+        ctx.discard("near tie (range / cone / forward boundary, or equal distances of two pairs sharing a point)")
+        return None
+    if max(rel[d].get("maxrow", 0) for d in rel) >= 25:
+        ctx.discard("25 or more candidates for some source point")
+        return None
+    pm = pts @ b["Q"].T + b["t"]
+    nm = nrm @ b["Q"].T
+    relm = relation(pm, nm, surf, d0, max_vox, deg)
+    if relm is None or sorted((s, t) for s, t, _ in relm["adm"]) != sorted((s, t) for s, t, _ in rel[d0]["adm"]):
+        ctx.discard("relation not stable under the rigid motion (near tie)")
+        return None
+    return b, rel, pm, nm
+
+
+def run_sheets(ctx, cases, corrupt=None, retry=True):
     """Execute the calls of every case, write the traces, let ThicknessTrace.tla decide."""
     traces, kept = [], []
     for case in cases:
-        b = build_sheet(case)
+        prepared = None
+        for attempt in range(8 if retry else 1):
+            prepared = prepare_sheet(ctx, case)
+            if prepared is not None:
+                break
+            # a near tie: the same parameters with fresh random points (replayed cases are never re-drawn)
+            case = dict(case, npseed=(case["npseed"] + 7919) % (2 ** 31))
+        if prepared is None:
+            continue
+        b, rel, pm, nm = prepared
         pts, nrm, surf = b["pts"], b["nrm"], b["surf"]
         n = len(pts)
         deg, voxel, d0 = case["deg"], case["voxel"], case["dir"]
         d1 = "2to1" if d0 == "1to2" else "1to2"
         max_vox = b["max_vox"]
         max_nm = max_vox * voxel
-        # the library converts back with a division: keep the boundary away from rounding noise is done by the tie margin
-        rel = {d: relation(pts, nrm, surf, d, max_vox, deg) for d in ("1to2", "2to1")}
-        if rel["1to2"] is None or rel["2to1"] is None:
-            ctx.discard("near tie (range / cone / forward boundary or equal distances)")
-            continue
-        if max(rel[d].get("maxrow", 0) for d in rel) >= 25:
-            ctx.discard("25 or more candidates for some source point")
-            continue
-        pm = pts @ b["Q"].T + b["t"]
-        nm = nrm @ b["Q"].T
-        relm = relation(pm, nm, surf, d0, max_vox, deg)
-        if relm is None or [(s, t) for s, t, _ in relm["adm"]] != [(s, t) for s, t, _ in rel[d0]["adm"]]:
-            ctx.discard("relation not stable under the rigid motion (near tie)")
-            continue
         rank = {d: {(s, t): k + 1 for k, (s, t, _) in enumerate(rel[d]["adm"])} for d in rel}
         m1, m2 = surf == 1, surf == 2
         f = case["factor"]
@@ -370,7 +390,7 @@ def replay(ctx, case):
     if case["kind"] == "geo":
         replay_geo(ctx, case["rec"])
     elif case["kind"] == "sheet":
-        run_sheets(ctx, [case])
+        run_sheets(ctx, [case], retry=False)
     else:
         raise core.MachineryError("unknown case kind %r" % case.get("kind"))
 
@@ -384,7 +404,7 @@ def run(ctx):
                 "non-trivial = at least one admissible pair lost a conflict (L3) / at least two admissible pairs (L2)")
     ctx.assumptions += [
         "admissibility is computed by brute force in the driver with the tangent criterion lateral < tan(max_angle)*proj; "
-        "cases with a near tie (1e-6 relative: range, cone or forward boundary, two equal distances) are discarded",
+        "cases with a near tie (1e-6 relative: range, cone or forward boundary, equal distances of two admissible pairs that share a point) are discarded",
         "fewer than 25 admissible targets per source (property quantifier; TLC shows the guarantee is lost when the cap binds)",
         "thickness is stored as float32: 1e-4 relative tolerance in traces, 1e-5 on the lattice",
         "the CUDA twin find_all_possible_matches_kernel is not executable here and is not checked"]
@@ -411,7 +431,7 @@ def run(ctx):
         recs = res.tagged.get("GEO", [])
         if len(recs) < 1000:
             raise core.MachineryError("GeoSpec emitted only %d inputs" % len(recs))
-        budget = ctx.pick(1500, 100000)
+        budget = ctx.pick(5000, 100000)
         chosen = sorted(recs, key=lambda r: core.stable_hash([ctx.seed, r]))[:budget]
         ctx.exhaustive["L2_geo_inputs"] = len(chosen) == len(recs)
         ctx.extra["geo_inputs_emitted"] = len(recs)
@@ -420,7 +440,7 @@ def run(ctx):
         for r in chosen:
             replay_geo(ctx, r)
     if want("l3"):
-        total = ctx.pick(60, 700)
+        total = ctx.pick(150, 700)
         nmax = ctx.pick(240, 600)
         batch = 100
         done = 0
@@ -429,5 +449,7 @@ def run(ctx):
             cases = [gen_sheet_case(ctx.rng, done + i + 1, nmax) for i in range(k)]
             if done == 0:
                 cases[0]["n"] = 600 if not ctx.quick else nmax       # the upper end of the quantifier is always present
-            run_sheets(ctx, cases)
+            # binding demonstration (self-test only): VERIF_C20_CORRUPT=field|swap_call corrupts one recorded field /
+            # swaps the direction flag of the base call in the first batch - the check must then report violations
+            run_sheets(ctx, cases, corrupt=(os.environ.get("VERIF_C20_CORRUPT") or None) if done == 0 else None)
             done += k
